@@ -112,3 +112,243 @@ def adjacency_entries_only_for_new_nodes(ctx, prog, flows, rid, consequence):
                     fresh = True
             ctx.require(fresh, rid, "insert|%s|%s" % (b.short, f), "the entry of `%s` is (re)created in %s only for a key that is not present yet" % (f, b.short.split("::")[-1]), ("`%s`.insert in %s is not limited to new nodes: re-adding an existing node replaces its adjacency entry with a fresh one, " % (f, b.short)) + (consequence % f), loc_str(site.span))
     ctx.floor(rid, "adjacency_entry_inserts", n_ins, 2)
+
+
+KEYED_READS = ("get", "contains_key", "index", "get_key_value", "contains")
+ADJ_MAP_ACCESSORS = ("get_successors_map", "get_predecessors_map")
+
+
+def adjacency_name_maps_only_keyed(ctx, prog, flows, rid, prefixes, consequence, floor=0):
+    """The name-keyed adjacency maps (`successors` / `predecessors`, also handed out by get_successors_map /
+    get_predecessors_map) get an entry for a node when its first edge is added, not when the node is added: their KEY
+    SET is "the nodes that have an edge", not the node list.  Looking a name up in them (with a default) is fine;
+    enumerating, counting or copying them as if they listed the nodes is not.  Checked for the bodies whose path
+    starts with one of `prefixes` (and the closures inside them)."""
+    ctx.rule(rid, "the name-keyed adjacency maps are read only through keyed lookups (get / contains_key): their key set is not the node list")
+    n = 0
+    for p in sorted(prog.bodies):
+        b = prog.bodies[p]
+        root = b
+        while root.kind == "closure":
+            root = prog.bodies[root.item["parent"]]
+        if not any(root.short.startswith(x) for x in prefixes):
+            continue
+        fl = flows.of(b)
+        for t in b.calls():
+            if not t.callee or not t.args or t.args[0].place is None:
+                continue
+            rty = t.args[0].place.ty
+            if "HashMap<" not in rty or "HashSet<" not in rty:
+                continue
+            sl = flows.slice(b.path, fl._op_reads(t.args[0]), up=True, down=False, data_only=True, roots=(root.path,))
+            from_adj = None
+            for (bp, nd) in sl:
+                bb_ = prog.bodies[bp]
+                if nd[0] == "CALL":
+                    tt = bb_.blocks[nd[1]].term
+                    if tt.callee and tt.callee.short.split("::")[-1] in ADJ_MAP_ACCESSORS:
+                        from_adj = tt.callee.short.split("::")[-1]
+                elif nd[0] == "SRC":
+                    f = field_of(("P", nd[1], nd[2]))
+                    if f in ("successors", "predecessors"):
+                        from_adj = f
+            if from_adj is None:
+                continue
+            nm = t.callee.short.split("::")[-1]
+            if nm in ADJ_MAP_ACCESSORS or nm in ("deref", "as_ref", "borrow"):
+                continue
+            n += 1
+            ctx.require(nm in KEYED_READS, rid, "use|%s|%s" % (b.short, nm), "`%s` is read by a keyed lookup (%s) in %s" % (from_adj, nm, b.short.split("::")[-1]),
+                        "%s applies `%s` to the whole `%s` map: its keys are the nodes that have an edge, " % (b.short, nm, from_adj) + consequence, loc_str(t.span))
+    if floor:
+        ctx.floor(rid, "adjacency_name_map_reads", n, floor)
+    return n
+
+
+# ---------------------------------------------------------------------------------------------------------------
+# enumerate counters that are used as node positions
+
+ORDER_KEEPING_CALLS = ("iter", "map", "cloned", "copied", "collect", "into_iter", "clone", "to_vec", "as_slice", "deref", "as_ref", "from_iter", "to_owned", "into", "borrow", "iter_mut", "by_ref", "inspect")
+POSITION_ACCESSORS = ("get_node_by_index", "get_successor_nodes_by_index", "get_predecessor_nodes_by_index", "get_successors_or_neighbors_by_index")
+
+
+def _node_list_order(prog, flows):
+    from props.c02 import node_list_accessors_in_store_order
+
+    return {k: v[0] for k, v in node_list_accessors_in_store_order(prog, flows).items()}
+
+
+def _classify_base(prog, flows, fl, d, acc_ok, depth=0):
+    """('ok' | 'bad' | 'unknown', why) for the description of what is being enumerated"""
+    import panic
+
+    if not isinstance(d, tuple) or depth > 8:
+        return ("unknown", fmt_desc(d))
+    if d[0] == "call":
+        nm = d[1].split("::")[-1]
+        if nm in ("get_all_nodes", "get_all_node_names"):
+            return ("ok", nm) if acc_ok.get(nm) else ("bad", "%s, which does not list the nodes in position order" % nm)
+        if nm in ORDER_KEEPING_CALLS and d[2]:
+            return _classify_base(prog, flows, fl, d[2][0], acc_ok, depth + 1)
+        return ("bad" if nm in ("sorted", "sorted_by", "sorted_by_key", "rev", "keys", "values", "sorted_unstable", "unique") else "unknown", "%s(..)" % nm)
+    if d[0] == "place":
+        last = d[1].split(".")[-1]
+        if last in ("nodes_vec", "successors_vec", "predecessors_vec"):
+            return ("ok", last)
+        if "." not in d[1]:
+            # a named local: node-sized if every definition allocates `n` elements, n taken from the node count
+            b = fl.b
+            ls = b.locals_named(d[1])
+            if ls:
+                ok = True
+                seen_def = False
+                for (dbb, dd) in b.assigns_to(ls[0]):
+                    seen_def = True
+                    desc = panic.norm(fl.describe_def(dd, depth=8))
+                    if not (desc[0] == "call" and desc[1].endswith("from_elem") and len(desc[2]) > 1 and _is_node_count(desc[2][1])):
+                        ok = False
+                if seen_def and ok:
+                    return ("ok", "a vector with one slot per node")
+        return ("unknown", d[1])
+    if d[0] == "adt" and d[1].endswith("Range") and len(d[2]) == 2 and _is_node_count(d[2][1]):
+        return ("ok", "0..number_of_nodes")
+    return ("unknown", fmt_desc(d))
+
+
+def _is_node_count(d):
+    from flow import desc_mentions
+
+    return desc_mentions(d, lambda x: x[0] == "call" and x[1].split("::")[-1] in ("number_of_nodes",)) or (isinstance(d, tuple) and d[0] == "call" and d[1].split("::")[-1] == "len" and desc_mentions(d, lambda x: x[0] == "call" and x[1].split("::")[-1] in ("get_all_nodes", "get_all_node_names")))
+
+
+def enumerate_counters_as_positions(ctx, prog, flows, rid, prefixes, consequence):
+    """`for (i, x) in xs.enumerate()`: when the counter i is used as a NODE POSITION -- handed to a *_by_index accessor, or
+    used as the index into a vector that the same function also indexes by a looked-up position (get_node_index,
+    `.node_index`) -- then xs must list the nodes in position order: the node store itself, one of the accessors that
+    return it in store order, a vector with one slot per node, or 0..number_of_nodes; through one-to-one adaptors only."""
+    import panic
+
+    ctx.rule(rid, "an enumerate() counter that is used as a node position enumerates the nodes in position order")
+    acc_ok = _node_list_order(prog, flows)
+    n = 0
+    for p in sorted(prog.bodies):
+        b = prog.bodies[p]
+        root = b
+        while root.kind == "closure":
+            root = prog.bodies[root.item["parent"]]
+        if not any(root.short.startswith(x) for x in prefixes):
+            continue
+        fl = flows.of(b)
+        sites = []  # (counter reads: set of dep nodes, body in which they are used, base description, span)
+        # loop form
+        for t in b.calls():
+            if t.callee and t.callee.short == "std::iter::Iterator::next" and t.args and t.args[0].place is not None and "std::iter::Enumerate<" in t.args[0].place.ty and not t.dest.proj:
+                cs = {s.lhs.local for s in b.stmts() if s.k == "assign" and s.rv.k == "use" and s.rv.ops[0].place is not None and s.rv.ops[0].place.local == t.dest.local and s.rv.ops[0].place.fields() == ["0", "0"] and not s.lhs.proj}
+                sl = fl.slice_local(fl._op_reads(t.args[0]), data_only=True)
+                en = [b.blocks[x[1]].term for x in sl if x[0] == "CALL" and b.blocks[x[1]].term.callee and b.blocks[x[1]].term.callee.short.endswith("Iterator::enumerate")]
+                if cs and en:
+                    sites.append(({("L", c) for c in cs}, b, fl, panic.norm(fl.describe(en[0].args[0], depth=10)), fl, en[0].span))
+        # closure form: the closure's item parameter is (usize, _) and the adaptor's receiver is an Enumerate
+        if b.kind == "closure" and b.arg_count >= 2 and b.local_ty(2).startswith("(usize,"):
+            for (pp, s_) in flows.closure_sites(b.path):
+                pf = flows.of(pp)
+                pb = prog.bodies[pp]
+                cls = pf.copies_of(s_.lhs.local)
+                for t in pb.calls():
+                    if t.args and t.args[0].place is not None and "Enumerate<" in t.args[0].place.ty and any(a.place is not None and a.place.local in cls for a in t.args[1:]):
+                        d = panic.norm(pf.describe(t.args[0], depth=12))
+                        # strip what comes after enumerate (filter, ..): the counter is fixed by then
+                        for _ in range(6):
+                            if isinstance(d, tuple) and d[0] == "call" and not d[1].endswith("Iterator::enumerate") and d[2]:
+                                d = d[2][0]
+                            else:
+                                break
+                        if isinstance(d, tuple) and d[0] == "call" and d[1].endswith("Iterator::enumerate"):
+                            cs = {s.lhs.local for s in b.stmts() if s.k == "assign" and s.rv.k == "use" and s.rv.ops[0].place is not None and s.rv.ops[0].place.local == 2 and s.rv.ops[0].place.fields()[:1] == ["0"] and not s.lhs.proj}
+                            sites.append(({("L", c) for c in cs} | {("LF", 2, 0)}, b, fl, d[2][0], pf, t.span))
+        for (cnodes, ub, ufl, base, bfl, span) in sites:
+            # is the counter used as a node position?
+            used = None
+            idx_vecs = {}
+            for u in ub.calls():
+                if not u.callee:
+                    continue
+                nm = u.callee.short.split("::")[-1]
+                for ai, a in enumerate(u.args):
+                    if a.place is None or a.place.ty not in ("usize", "&usize"):
+                        continue
+                    sl = ufl.slice_local(ufl._op_reads(a), data_only=True)
+                    from_counter = bool(sl & cnodes)
+                    looked_up = any(x[0] == "CALL" and ub.blocks[x[1]].term.callee and ub.blocks[x[1]].term.callee.short.split("::")[-1] == "get_node_index" for x in sl) or any(x[0] == "SRC" and "node_index" in x[2] for x in sl)
+                    if nm in POSITION_ACCESSORS and from_counter:
+                        used = "%s(counter)" % nm
+                    if nm in ("index", "index_mut") and ai == 1:
+                        for o in ufl._operand_pts(u.args[0]):
+                            e = idx_vecs.setdefault(o, [False, False])
+                            e[0] = e[0] or from_counter
+                            e[1] = e[1] or looked_up
+            for o, (c_, l_) in idx_vecs.items():
+                if c_ and l_:
+                    used = "a vector indexed both by the counter and by a looked-up node position"
+            if used is None:
+                continue
+            n += 1
+            cls_, why = _classify_base(prog, flows, bfl, base, acc_ok)
+            ctx.require(cls_ == "ok", rid, "counter|%s" % ub.short, "the counter used as %s in %s enumerates %s" % (used, ub.short.split("::", 1)[-1], why),
+                        "%s uses an enumerate() counter as a node position (%s) but enumerates %s: " % (ub.short, used, why) + consequence, loc_str(span))
+    return n
+
+
+def node_append_behind_fresh_absence_test(ctx, prog, flows, effects, rid, consequence):
+    """Every push onto `nodes_vec` (one more stored node) is decided by a lookup of the name in `nodes_map` that is
+    still CURRENT when the push runs: between that lookup and the push no other group of statements may have written
+    nodes_map.  (`let u_new = !has(u); let v_new = !has(v); if u_new { append(u) } if v_new { append(v) }` appends the
+    same name twice for a self-loop on a new node: the second test was made before the first append.)"""
+    ctx.rule(rid, "a node is appended to the node store only behind a lookup of its name that no other append separates from it")
+    n = 0
+    for p in sorted(prog.bodies):
+        b = prog.bodies[p]
+        if b.kind == "closure":
+            continue
+        evs = index_events(effects, b)
+        pushes = [(bb, site) for (bb, site, f, kind) in evs if f == "nodes_vec" and kind.endswith("Vec::push") and getattr(site, "k", None) == "call" and site.callee and site.callee.short.endswith("Vec::push")]
+        if not pushes:
+            continue
+        fl = flows.of(b)
+        map_writes = sorted({bb for (bb, site, f, kind) in evs if f == "nodes_map" and getattr(site, "k", None) == "call" and site.callee and site.callee.short.split("::")[-1] in ("insert", "entry", "or_insert", "or_insert_with", "remove", "clear")})
+        tests = [t for t in b.calls() if t.callee and t.callee.short.split("::")[-1] in ("contains_key", "get") and t.args and t.args[0].place is not None and fl.field_path(t.args[0].place).endswith("nodes_map")]
+        if not tests:
+            # the receiver may be a re-borrow: go by what it points to
+            tests = [t for t in b.calls() if t.callee and t.callee.short.split("::")[-1] in ("contains_key", "get") and t.args and any(o[0] == "P" and field_of(o) == "nodes_map" for o in fl._operand_pts(t.args[0]))]
+        for (pbb, site) in pushes:
+            n += 1
+            deps = b.transitive_control_deps(pbb)
+            pdeps = {a for (a, s) in deps}
+            controlling = []
+            for (a, s) in deps:
+                sl = fl.slice_local(fl.atom_reads(a), data_only=True)
+                for t in tests:
+                    if ("CALL", t.bb) in sl and t not in controlling:
+                        controlling.append(t)
+            fresh = []
+            stale_why = []
+            for t in controlling:
+                after_t = b.reachable_from(t.bb)
+                foreign = []
+                for w in map_writes:
+                    if w == pbb or w == t.bb or w not in after_t or pbb not in b.reachable_from(w):
+                        continue
+                    if b.dominates(pbb, w):
+                        continue
+                    wdeps = {a for (a, s) in b.transitive_control_deps(w)}
+                    if pdeps <= wdeps:
+                        continue  # the nodes_map insert that belongs to this very append (same guard, possibly one more)
+                    foreign.append(w)
+                if foreign:
+                    stale_why.append("lookup at %s is followed by the nodes_map write at %s before the append" % (loc_str(t.span), ", ".join(loc_str(b.blocks[w].term.span) for w in foreign[:2])))
+                else:
+                    fresh.append(t)
+            ctx.require(bool(fresh), rid, "append|%s" % b.short, "the append in %s is decided by a lookup in nodes_map that is still current" % b.short.split("::")[-1],
+                        "%s appends to nodes_vec %s: " % (b.short, ("without a lookup of the name in nodes_map" if not controlling else "; ".join(stale_why))) + consequence, loc_str(site.span))
+    ctx.floor(rid, "node_appends", n, 1)
+    return n
